@@ -269,7 +269,35 @@ def raise_conditions(w: Walker):
 def check_entry_unconditional(rep, w: Walker, guards, rule: str, what: str, line: int = 0) -> None:
     """`guards` dominate a schema construct: each must be the negation of a validation test that raises."""
     rc = raise_conditions(w)
-    bad = [f for f in facts(guards) if mk_not(f) not in rc]
+    exits = [e for e in w.events if e.kind == "raise" or (e.kind == "return" and e.fn is w.entry and not e.loops)]
+
+    def empty_input(g, pol) -> bool:
+        """`len(arg) == 0` / `arg is None` / `arg.size == 0` / `not len(arg)`: the test of an empty argument."""
+        t = g if pol else mk_not(g)
+        sized = lambda x: (x[0] == "call" and x[1] == ("builtin", "len") and len(x[2]) == 1 and x[2][0][0] == "param") or \
+            (x[0] == "attr" and x[2] == "size" and x[1][0] == "param") or \
+            (x[0] == "idx" and x[1][0] == "attr" and x[1][2] == "shape" and x[1][1][0] == "param" and x[2] == ("const", 0))
+        if t[0] == "cmp" and t[1] == "==" and ((sized(t[2]) and t[3] == ("const", 0)) or (sized(t[3]) and t[2] == ("const", 0))):
+            return True
+        if t[0] == "cmp" and t[1] in ("<", "<=") and sized(t[2]) and t[3] in (("const", 1), ("const", 0)):
+            return t[1] == "<" or t[3] == ("const", 0)
+        if t[0] == "cmp" and t[1] == "is" and {t[2][0], t[3][0]} == {"param", "const"} and ("const", None) in (t[2], t[3]):
+            return True
+        if t[0] == "not" and sized(t[1]):
+            return True
+        if t[0] == "or":
+            return all(empty_input(x, True) for x in t[1])
+        return False
+
+    def validated(g, pol) -> bool:
+        # the other arm of this very test leaves the function: by raising, or - for an empty argument - by returning
+        for e in exits:
+            if (g, not pol) in e.guards:
+                if e.kind == "raise" or empty_input(g, not pol):
+                    return True
+        return False
+    bad = [f for (g, pol) in guards for f in [g if pol else mk_not(g)] if not validated(g, pol)
+           and not all(mk_not(x) in rc for x in facts(((g, pol),)))]
     rep.fn(rule, w.entry, f"{what} is reached on every valid call", not bad,
            "" if not bad else f"{what} is skipped when not ({show(bad[0])[:120]}): an early exit / extra condition leaves the "
            "schema unexecuted on some inputs", line=line or w.entry.node.lineno)
